@@ -26,8 +26,8 @@ import sys
 
 from .. import trace
 from ..chamsim import import_chameleon
-from ..core import (VERIF_ROOT, Choices, EventLog, Scheduler, canonical,
-                    make_policy, short_hash)
+from ..core import (VERIF_ROOT, Choices, EventLog, Scheduler, WouldBlock,
+                    canonical, make_policy, short_hash)
 from ..fs import SCRATCH_BASE, World, real
 from .base import CheckBase
 from .c15 import norm_msg
@@ -83,8 +83,11 @@ F_SELF = (
     '<div><p metal:define-macro="a">A-${name}<span metal:define-slot="x">dx</span></p>'
     '<p metal:define-macro="b">B-${name}</p>'
     '<div metal:use-macro="template.macros[\'a\']"><i metal:fill-slot="x">${y()}fx-${name}</i></div></div>')
+F_XPAGE = ('<div><span metal:use-macro="load: part.pt">x</span>${name}</div>')
 FILES = {"lib.pt": F_LIB, "page.pt": F_PAGE, "main.pt": F_MAIN,
-         "self.pt": F_SELF}
+         "self.pt": F_SELF,
+         "x/page.pt": F_XPAGE, "x/part.pt": '<span>part-x ${name}${y()}</span>',
+         "y/page.pt": F_XPAGE, "y/part.pt": '<span>part-y ${name}${y()}</span>'}
 FILE_MACROS = {"lib.pt": ["m", "n"], "self.pt": ["a", "b"]}
 USE_CALLER = '<section metal:use-macro="t.macros[\'%s\']"><u metal:fill-slot="s">cs-${name}</u><u metal:fill-slot="x">cx-${name}</u></section>'
 
@@ -142,6 +145,8 @@ class C14(CheckBase):
     def gen(self, ch: Choices, tier: str) -> dict:
         if ch.coin(0.08):
             return self.gen_xproc(ch, tier)
+        if ch.coin(0.35):
+            return self.gen_lazyrace(ch, tier)
         kind = ch.weighted([(3, "string"), (4, "file"), (4, "loader"),
                             (2, "cached")], "kind")
         ntasks = 2 if ch.coin(0.7) else 3
@@ -185,7 +190,38 @@ class C14(CheckBase):
             tasks.append(ops)
         sched = self._gen_sched(ch, ntasks)
         return {"shared": shared, "tasks": tasks, "sched": sched,
-                "coarse": ch.coin(0.25)}
+                "coarse": ch.coin(0.25), "observer": ch.coin(0.5)}
+
+    def gen_lazyrace(self, ch: Choices, tier: str) -> dict:
+        """The first, lazily compiling use of one shared file template (or
+        of one name through a shared loader) by three threads; change
+        points only at source lines that touch shared state."""
+        via_loader = ch.coin(0.3)
+        name = ch.pick(["self.pt", "lib.pt", "page.pt", "main.pt",
+                        "x/page.pt"])
+        shared = [{"kind": "loader"}] if via_loader else \
+            [{"kind": "file", "name": name}]
+        tasks = []
+        for t in range(3):
+            ops = []
+            for _ in range(1 if ch.coin(0.7) else 2):
+                if via_loader:
+                    ops.append(["load_render", 0, name, t + 1])
+                elif name in FILE_MACROS and ch.coin(0.4):
+                    ops.append(["names", 0] if ch.coin(0.4) else
+                               ["use", 0, ch.pick(FILE_MACROS[name]), t + 1])
+                else:
+                    ops.append(["render", 0, t + 1])
+            tasks.append(ops)
+        d = ch.pick([2, 3, 3, 4])
+        if via_loader:
+            shared[0]["obs_name"] = name
+        return {"shared": shared, "tasks": tasks, "coarse": False,
+                "focus": True, "observer": ch.coin(0.8),
+                "sched": {"kind": "pctacc",
+                          "prios": ch.shuffle([1, 2, 3]),
+                          "fracs": [[ch.choose(3), ch.choose(100000) / 100000.0]
+                                    for _ in range(d)]}}
 
     def gen_xproc(self, ch: Choices, tier: str) -> dict:
         pool = [["string", n] for n in sorted(STRINGS)] + \
@@ -215,6 +251,7 @@ class C14(CheckBase):
         for n, body in FILES.items():
             p = os.path.join(d, n)
             if not os.path.exists(p):
+                os.makedirs(os.path.dirname(p), exist_ok=True)
                 with open(p, "w") as f:
                     f.write(body)
 
@@ -363,17 +400,28 @@ class C14(CheckBase):
         if not os.path.isdir(d):
             os.makedirs(os.path.join(d, "cache"))
             for n, body in FILES.items():
+                os.makedirs(os.path.dirname(os.path.join(d, n)),
+                            exist_ok=True)
                 with real.open(os.path.join(d, n), "w") as f:
                     f.write(body)
         objs = []
+        # caller-owned search path lists: rendering/loading must leave
+        # them as they are
+        self._owned = []
+
+        def owned():
+            lst = [d]
+            self._owned.append((lst, list(lst)))
+            return lst
         for s in shared:
             k = s["kind"]
             if k == "string":
                 objs.append(zt.PageTemplate(STRINGS[s["name"]]))
             elif k == "file":
-                objs.append(zt.PageTemplateFile(os.path.join(d, s["name"])))
+                objs.append(zt.PageTemplateFile(os.path.join(d, s["name"]),
+                                                search_path=owned()))
             elif k == "loader":
-                objs.append(self.TemplateLoader(d))
+                objs.append(self.TemplateLoader(owned()))
             elif k == "cached":
                 objs.append(zt.PageTemplate(
                     STRINGS[s["name"]],
@@ -464,6 +512,7 @@ class C14(CheckBase):
                     labels.append(interesting)
                     return orig(label, interesting)
                 sched.yield_point = yp      # type: ignore[method-assign]
+            done_ops = [0] * len(shared)
             for ti, ops in enumerate(case["tasks"]):
                 out: list = []
                 results.append(out)
@@ -471,8 +520,45 @@ class C14(CheckBase):
                 def body(ops=ops, out=out):
                     for op in ops:
                         out.append([op, self.do_op(objs, op, box)])
+                        done_ops[op[1]] += 1
                 sched.spawn("t%d" % ti, body, proc)
-            trace.attach(sched, coarse=case.get("coarse", False))
+            if case.get("observer") and sub == "run":
+                # An extra thread that, at every shared-state access line
+                # once somebody has completed an operation on the object,
+                # gets the processor and performs one whole render without
+                # being pre-empted - a legal schedule at every such instant.
+                budget = [80]
+                obs_ops = []
+                for si, sh in enumerate(shared):
+                    if sh["kind"] == "loader":
+                        obs_ops.append(["load_render", si,
+                                        sh.get("obs_name", "self.pt"), 90 + si])
+                    else:
+                        obs_ops.append(["render", si, 90 + si])
+                turn = [0]
+
+                def observer(me, label):
+                    if not sched.last_access or budget[0] <= 0:
+                        return
+                    si = turn[0] % len(shared)
+                    turn[0] += 1
+                    if not done_ops[si]:
+                        return
+                    budget[0] -= 1
+                    op = obs_ops[si]
+                    sched.atomic = True
+                    try:
+                        r = self.do_op(objs, op, [None])
+                    except WouldBlock:
+                        r = None
+                    finally:
+                        sched.atomic = False
+                    stats["observer_ops"] = stats.get("observer_ops", 0) + 1
+                    if r is not None and r != obs_exp[si]:
+                        observer_bad.append((sched.step, label, op, r))
+                sched.on_event = observer
+            trace.attach(sched, coarse=case.get("coarse", False),
+                         focus=case.get("focus", False))
             l0 = trace._state["lines"]
             sched.run(timeout=90)
             trace.detach()
@@ -482,10 +568,11 @@ class C14(CheckBase):
 
         # dry run (boring schedule) to measure the number of events and to
         # find the events inside shared-state functions
-        dkey = short_hash([shared, case["tasks"], case.get("coarse")])
+        dkey = short_hash([shared, case["tasks"], case.get("coarse"),
+                           case.get("focus")])
         labels: list | None = None
         pol = dict(case["sched"])
-        if pol.get("kind") == "pct" and "fracs" in pol:
+        if pol.get("kind") in ("pct", "pctacc") and "fracs" in pol:
             d = self._dry_cache.get(dkey)
             if d is None:
                 labels = []
@@ -495,7 +582,9 @@ class C14(CheckBase):
                             "violations": [], "digest": log.digest(),
                             "events": log.count}
                 hot = [i + 1 for i, x in enumerate(labels) if x]
-                d = {"n": len(labels), "hot": hot}
+                d = {"n": len(labels), "hot": hot,
+                     "acc": max([t.access_events for t in dsched.tasks]
+                                or [0])}
                 if len(self._dry_cache) > 2000:
                     self._dry_cache.clear()
                 self._dry_cache[dkey] = d
@@ -503,18 +592,43 @@ class C14(CheckBase):
                 # keep the event log independent of cache hits: the dry
                 # run's own events are never logged
                 pass
-            changes = []
-            for frac, snap in pol["fracs"]:
-                if snap and d["hot"]:
-                    changes.append(d["hot"][int(frac * len(d["hot"]))])
-                else:
-                    changes.append(1 + int(frac * max(d["n"], 1)))
-            pol = {"kind": "pct", "prios": pol["prios"],
-                   "changes": sorted(changes)}
+            if pol["kind"] == "pctacc":
+                pol = {"kind": "pctacc", "prios": pol["prios"],
+                       "points": [[t, 1 + int(frac * max(d["acc"], 1))]
+                                  for t, frac in pol["fracs"]]}
+            else:
+                changes = []
+                for frac, snap in pol["fracs"]:
+                    if snap and d["hot"]:
+                        changes.append(d["hot"][int(frac * len(d["hot"]))])
+                    else:
+                        changes.append(1 + int(frac * max(d["n"], 1)))
+                pol = {"kind": "pct", "prios": pol["prios"],
+                       "changes": sorted(changes)}
         # the dry phase must not leave a trace in the log/digest
         log.__init__()
 
+        observer_bad: list = []
+        obs_exp = []
+        if case.get("observer"):
+            for si, sh in enumerate(shared):
+                if sh["kind"] == "loader":
+                    obs_exp.append(self.expected(world, shared, [
+                        "load_render", si, sh.get("obs_name", "self.pt"),
+                        90 + si]))
+                else:
+                    obs_exp.append(self.expected(world, shared,
+                                                 ["render", si, 90 + si]))
         sched, objs, results = phase("run", pol)
+        owned_lists = list(self._owned)
+        for step, label, op, r in observer_bad[:1]:
+            violations.append({
+                "kind": "observer-differs", "sig": "observer-differs",
+                "detail": f"a thread that is given the processor at event "
+                          f"{step} ({label}) and performs {op} without being "
+                          f"pre-empted gets {str(r)[:300]}; run alone it "
+                          f"gets {str(obs_exp[op[1]])[:300]}"})
+            log.add("observer-bad", step)
         if sched.failure is not None:
             fk = type(sched.failure).__name__
             if fk == "Deadlock":
@@ -559,6 +673,14 @@ class C14(CheckBase):
                         "kind": "residue", "sig": "residue:" + op[0],
                         "detail": f"after the concurrent phase {op} returns "
                                   f"{str(r)[:400]}; expected {str(want)[:400]}"})
+        for lst, snap in owned_lists:
+            if lst != snap:
+                violations.append({
+                    "kind": "args-mutated", "sig": "args-mutated:search_path",
+                    "detail": f"the search_path list handed to a loader / "
+                              f"file template was modified: "
+                              f"{[world.rel(x) for x in lst]} (was "
+                              f"{[world.rel(x) for x in snap]})"})
         stats["switches"] = sched.switches
         stats["interesting_switches"] = sched.interesting_switches
         nontrivial = []
@@ -602,6 +724,10 @@ class C14(CheckBase):
             d = copy.deepcopy(c)
             d["coarse"] = False
             yield d
+        if c.get("observer"):
+            d = copy.deepcopy(c)
+            d["observer"] = False
+            yield d
         for ti in range(len(c["tasks"]) - 1, -1, -1):
             if len(c["tasks"]) > 2:
                 d = copy.deepcopy(c)
@@ -615,8 +741,9 @@ class C14(CheckBase):
                     del d["tasks"][ti][oi]
                     yield d
         s = c["sched"]
-        if s.get("kind") == "pct":
-            key = "fracs" if "fracs" in s else "changes"
+        if s.get("kind") in ("pct", "pctacc"):
+            key = "fracs" if "fracs" in s else (
+                "changes" if "changes" in s else "points")
             for j in range(len(s[key])):
                 d = copy.deepcopy(c)
                 del d["sched"][key][j]
